@@ -91,6 +91,13 @@ def run(tier):
         for _ in range(2000 if tier == "thorough" else 300):
             L = r.choice([3, 4, 15, 16, 17, 26, 100, 255, 600])
             ev([r.randrange(256) for _ in range(L)], r.randrange(65536), default=r.random() < 0.3)
+        # the same byte string checksummed again with other start values right away (and the default in between):
+        # the result must depend on the start value of THIS call only
+        for _ in range(400 if tier == "quick" else 4000):
+            L = r.choice([0, 1, 2, 9, 26])
+            data = [r.randrange(256) for _ in range(L)]
+            for st in (None, r.randrange(65536), 0, None, 0xFFFF, r.randrange(65536)):
+                ev(data, st if st is not None else 0xFFFF, default=st is None)
         for _ in range(100000 if tier == "thorough" else 20000):
             tid += 1
             s, b = r.randrange(65536), r.randrange(256)
@@ -109,6 +116,39 @@ def run(tier):
                 e = byid[x[1]]
                 rep.violation("C15:" + x[2], "crc8404B result %r rejected by the specification (%s)" % (e["out"], x[2]), e)
         rep.add_trace("Trace_CRC16 (recorded crc8404B calls judged by the bit-serial definition)", st, len(evs) - 1)
+        # --- use site: the checksum INSIDE authentication blocks (the container of C08) is this CRC, big-endian, two bytes,
+        #     and a frame with any other value in the checksum field (0000 and FFFF included) is refused
+        from .. import bf3lib as L3, bec2lib as B2
+        from .c08 import rec_wrap, rec_unwrap, TCFG
+        from bec2format.crypto import create_AES128
+        urec = L3.Rec()
+        need = {("hi", 0), ("lo", 0), ("hi", 255), ("lo", 255)}
+        tries = 0
+        while tries < 300000 and (need or tries < 60):
+            tries += 1
+            n = r.choice([1, 17, 26])
+            p = bytes(r.randrange(256) for _ in range(n))
+            c16 = crc(p)
+            hit = {("hi", c16 >> 8), ("lo", c16 & 255)} & need
+            if hit or tries <= 60:
+                need -= hit
+                key = bytes(r.randrange(256) for _ in range(16))
+                enc, spec = B2.dec_cust(key) if tries % 2 else B2.dec_code(key[:8])
+                ct = rec_wrap(urec, enc, spec, p)
+                rec_unwrap(urec, enc, spec, ct)
+                pad = (-(2 + 1 + n + 2) % 16) + 1
+                akey = bytes(spec["key"])
+                for wrong in (0x0000, 0xFFFF, c16 ^ 0x0100):
+                    if wrong != c16:
+                        rec_unwrap(urec, enc, spec, create_AES128(akey).encrypt(b"B" + bytes([n + 2]) + bytes(pad) + p + wrong.to_bytes(2, "big")))
+        if need:
+            raise MachineryError("no payloads found for the CRC byte classes %r" % sorted(need))
+        urej, ust = tlc.validate_trace(os.path.join(SPEC, "Trace_Bec2.tla"), TCFG, urec.events, os.path.join(wd, "use"), shards=16)
+        ubyid = {e["tid"]: e for e in urec.events}
+        for x in urej:
+            e = ubyid[x[1]]
+            rep.violation("C15:use-site:%s:%s" % (e["op"], x[2].split(":")[0]), "checksum inside an authentication block: %s" % x[2], e)
+        rep.add_trace("Trace_Bec2 c08.wrap/c08.unwrap: the checksum field of real authentication-block frames (CRC byte classes 00/FF) and crafted wrong checksums", ust, len(urec.events))
         rep.sample(evs[5]); rep.sample(evs[-2]); rep.sample(evs[700])
     rep.cov["exhaustive"] = True
     rep.cov["explanation"] = "one-step equivalence exhausted on 2^24 arguments in the spec and on the real function; fold by induction"
